@@ -23,9 +23,19 @@ impl HasKey<Secret> for V4 {
     type Key = SecretKey;
 
     fn decode(bytes: &[u8]) -> Result<SecretKey, PasetoError> {
-        crypto_sign::SecretKey::from_bytes(bytes)
-            .map(SecretKey)
-            .map_err(|_| PasetoError::InvalidKey)
+        let key = crypto_sign::SecretKey::from_bytes(bytes).map_err(|_| PasetoError::InvalidKey)?;
+
+        // the second half of the key must be the public key that belongs to the seed
+        let (seed, public_key) = key
+            .as_bytes()
+            .split_first_chunk::<32>()
+            .ok_or(PasetoError::InvalidKey)?;
+        let derived = crypto_sign::keypair_from_seed(seed).map_err(|_| PasetoError::InvalidKey)?;
+        if derived.public_key.as_bytes()[..] != *public_key {
+            return Err(PasetoError::InvalidKey);
+        }
+
+        Ok(SecretKey(key))
     }
     fn encode(key: &SecretKey) -> Box<[u8]> {
         key.0.as_bytes().to_vec().into_boxed_slice()
